@@ -159,8 +159,17 @@ package panos
 //vc:  invariant[C03] 2 "for i, n := range gb.Members" @membersEqualSoFar -1 <= rangeindex && (forall k int :: { gb.Members[k] } 0 <= k && k <= rangeindex ==> gb.Members[k] == ga.Members[k])
 //vc:  assert[C03] at "ga.needed = true" @deviceGroupBoundOnce !ga.needed && len(ga.Members) == len(gb.Members) && (forall k int :: { gb.Members[k] } 0 <= k && k < len(gb.Members) ==> gb.Members[k] == ga.Members[k])
 //vc:  assert[C03] at "gb.nameOnDevice = ga.Name" @netspocGroupBoundOnce gb.nameOnDevice == ""
+// (result: the name handed back is recorded in the Netspoc group)
+//vc:  ensures[C03,C08] @bindingRecorded result != "" ==> gb.nameOnDevice == result
+// adaptGroups: the name written into the rule's list for a Netspoc group is the
+// name recorded in that group (nameOnDevice) - the name of the device group it
+// was linked to, or its own name when it is going to be transferred. A name
+// used but not recorded lets a later rule link the group to another device
+// group and cancel the transfer: the rule then refers to a group that never
+// exists on the device.
 //vc:func (*rulesPair).adaptGroups
-//vc:  invariant[C03] 1 "for i, adr := range lb" true
+//vc:  invariant[C03,C08] 1 "for i, adr := range lb" @restOfListUntouched -1 <= rangeindex && (forall k int :: { lb[k] } rangeindex < k && k < len(lb) ==> lb[k] == loopold(lb[k]))
+//vc:  invariant[C03,C08] 1 "for i, adr := range lb" @nameInListIsRecordedBinding forall k int :: { loopold(lb[k]) } k == rangeindex && 0 <= k && (loopold(lb[k]) in ab.b.groups) && ab.b.groups[loopold(lb[k])] != nil ==> ab.b.groups[loopold(lb[k])].nameOnDevice == lb[k]
 
 // ---- C18: a raw / IPv6 part that cannot be merged is reported ----
 // processVsysPairs refuses parts whose <device> names differ; MergeSpoc must
@@ -249,11 +258,6 @@ package panos
 //vc:  requires[C09,C20] @hasDeviceEntry c.Devices != nil && len(c.Devices.Entries) > 0
 //vc:  ensures result == c.Devices.Entries[0].Hostname
 
-// adaptGroups: a Netspoc group that is going to be transferred under its own
-// name is bound to that name at once, so that a later rule cannot link it to a
-// device group and cancel the transfer while this rule already uses the name.
-//vc:func (*rulesPair).adaptGroups
-//vc:  assert[C03] after "gb.nameOnDevice = gb.Name" @transferredGroupKeepsItsName lb[i] == gb.Name && gb.nameOnDevice == gb.Name
 // diffRules: the rule name in `where=before&dst=` goes into a URL like every other name (structural guard)
 //vc:func (*rulesPair).diffRules
 //vc:  assert[C03] at "url.QueryEscape(aName)" @moveDestinationEscaped true
